@@ -62,7 +62,7 @@ def generate(seed, tier):
             rows = [[r.randint(0, 1) for _ in range(nv)] for _ in range(nrows)]
             if nrows >= 2 and r.random() < 0.4:
                 rows[-1] = list(rows[0])  # repeated rows
-            start = {"kind": "given", "rows": rows, "dim": dim, "dtype": r.choice(["double", "double", "double", "float", "long"])}
+            start = {"kind": "given", "rows": rows, "dim": dim, "dtype": r.choice(["double", "double", "double", "float", "long"]), "layout": r.choice(["contig", "contig", "transposed", "colslice"]) if dim == 2 else "contig"}
             via = r.choice(["state", "state", "rbm"])
         ops.append(
             {
@@ -77,6 +77,9 @@ def generate(seed, tier):
                 "positional": r.random() < 0.3,
             }
         )
+    if r.random() < 0.01:
+        # a very large batch of chains from one start state (law judged on its first and last 50 000 chains)
+        ops.append({"op": "sample", "via": r.choice(["state", "rbm"]), "k": r.choice([1, 2]), "start": {"kind": "huge", "n": r.choice([70001, (1 << 20) + 60000]), "row": [r.randint(0, 1) for _ in range(nv)]}, "overwrite": r.random() < 0.5, "sub": P.s64(r), "mode": "honest", "law": False})
     config = {"state": scfg}
     if r.random() < 0.35:
         config["twin_pseed"] = P.s64(r)
@@ -197,6 +200,36 @@ def execute(plan):
             k = op["k"]
             st = op["start"]
             kind = st["kind"]
+            if kind == "huge":
+                row = (st["row"] + [0] * nv)[:nv]
+                big = torch.tensor([row], dtype=torch.double).repeat(st["n"], 1)
+                rng.quiet = True
+                rng.stream(op["sub"], mode="honest")
+                try:
+                    out = state.rbm_am.gibbs_steps(k, big, overwrite=op["overwrite"]) if op["via"] == "rbm" else state.sample(k, initial_state=big, overwrite=op["overwrite"])
+                    if tuple(out.shape) != (st["n"], nv):
+                        run.violate("4", f"op {j}: result shape {tuple(out.shape)} for {st['n']} chains", k=k, start="huge")
+                    else:
+                        Kk = np.linalg.matrix_power(table.kernel(), k)
+                        law = Kk[int(row_index(np.array([row], dtype=np.float64))[0])]
+                        M = 50000
+                        eps = math.sqrt(math.log(2 * 2 ** nv / 1e-12) / (2 * M))
+                        for name, sl in (("first", out[:M]), ("last", out[-M:])):
+                            emp = np.bincount(row_index(sl.numpy()), minlength=2 ** nv) / float(M)
+                            dev = float(np.max(np.abs(emp - law)))
+                            if dev > eps:
+                                run.violate("5", f"op {j}: {name} {M} of {st['n']} chains: empirical {k}-step law deviates from kernel^k by {dev:.4f} > {eps:.4f}", k=k, n=st["n"], part=name)
+                        if op["overwrite"] and not torch.equal(big, out):
+                            run.violate("4", f"op {j}: overwrite=True but the caller's {st['n']}-chain start state does not hold the result", k=k, start="huge")
+                        run.probes["huge_batches"] += 1
+                        run.sim["gibbs_steps"] += k * st["n"]
+                except Exception as exc:  # noqa: BLE001
+                    run.lib_exception(exc, f"sample op {j} on {st['n']} chains")
+                finally:
+                    rng.quiet = False
+                rng.check_global()
+                trace.append((op["via"], k, "huge", st["n"]))
+                continue
             if kind == "prev" and st["ref"] not in results:
                 kind = "fresh"
                 st = {"kind": "fresh", "n": 2}
@@ -208,6 +241,12 @@ def execute(plan):
                 rows = st["rows"]
                 rows = [row[:nv] + [0] * (nv - len(row)) for row in rows]
                 start_t = torch.tensor(rows[0] if st["dim"] == 1 else rows, dtype=dt)
+                if st["dim"] == 2 and st.get("layout") == "transposed":
+                    start_t = start_t.t().contiguous().t()  # same values, column-major memory
+                elif st["dim"] == 2 and st.get("layout") == "colslice":
+                    wide = torch.zeros(len(rows), nv + 3, dtype=dt)
+                    wide[:, 1 : 1 + nv] = start_t
+                    start_t = wide[:, 1 : 1 + nv]  # a strided view into a wider buffer of the caller
             elif kind == "prev":
                 start_t = results[st["ref"]]
             start_copy = None if start_t is None else start_t.clone()
@@ -395,6 +434,10 @@ def shrink(plan):
         if op["mode"] != "honest":
             q = copy.deepcopy(plan)
             q["ops"][j]["mode"] = "honest"
+            out.append(q)
+        if op["start"]["kind"] == "given" and op["start"].get("layout", "contig") != "contig":
+            q = copy.deepcopy(plan)
+            q["ops"][j]["start"]["layout"] = "contig"
             out.append(q)
         if op["start"]["kind"] == "given" and len(op["start"]["rows"]) > 1 and op["start"]["dim"] == 2:
             q = copy.deepcopy(plan)
